@@ -15,6 +15,7 @@ import Smooth.Model.Symbolic
 import Smooth.Model.Rules
 import Smooth.Model.Driver
 import Smooth.Model.Objects
+import Smooth.Model.Routes
 import Smooth.Model.Surface
 import Smooth.Model.Instances
 import Smooth.Model.Heap
@@ -155,6 +156,15 @@ def parsePointW (C : Codec α) : P (Point α) := do
     out := (x, v) :: out
   pure out.reverse
 
+def parseObjW [Inhabited α] (C : Codec α) : P (Obj α) := do
+  match ← tok with
+  | "OE" => pure (.expr (← parseExprW C))
+  | "OP" => pure (.point (← parsePointW C))
+  | "OPA" => do let x ← tok; pure (.partial_ (← parseExprW C) x)
+  | "ODE" => pure (.derivative (← parseExprW C))
+  | "ODI" => pure (.differential (← parseExprW C))
+  | _ => do let e ← parseExprW C; pure (.located e (← parsePointW C))
+
 def flagStr (wf : Bool) (f : Flags) : String :=
   if !wf then "" else
   let s := (if f.red then "r" else "") ++ (if f.failed then "f" else "")
@@ -219,53 +229,29 @@ def asciiWord (c : Char) : Bool := c.isAlphanum || c == '_'
 /-- every numeric derivative route of the public API, by name -/
 def route [Inhabited α] (N : Num α) (name : String) (x : String) (e : Expr α) (p : Point α) : R α :=
   match name with
-  | "PL" => do let (P, _) ← PartialObj.new N e x false; P.at N p
-  | "PE" => do let (P, _) ← PartialObj.new N e x true; P.at N p
-  | "PA" => do
-      let (P, _) ← PartialObj.new N e x false
-      let (_, P', _) ← P.asExpression N
-      P'.at N p
-  | "DL" => do let (D, _) ← DerivativeObj.new N e false; D.at N p
-  | "DE" => do let (D, _) ← DerivativeObj.new N e true; D.at N p
-  | "DA" => do
-      let (D, _) ← DerivativeObj.new N e false
-      let (_, D', _) ← D.asExpression N
-      D'.at N p
-  | "FCL" => do let (D, _) ← DifferentialObj.new N e false; let (P, _) ← D.component N x; P.at N p
-  | "FCE" => do let (D, _) ← DifferentialObj.new N e true; let (P, _) ← D.component N x; P.at N p
-  | "FCAL" => do let (D, _) ← DifferentialObj.new N e false; D.componentAt N x p
-  | "FCAE" => do let (D, _) ← DifferentialObj.new N e true; D.componentAt N x p
-  | "FATL" => do
-      let (D, _) ← DifferentialObj.new N e false
-      let L ← D.at N p
-      pure (L.component N x)
-  | "FATE" => do
-      let (D, _) ← DifferentialObj.new N e true
-      let L ← D.at N p
-      pure (L.component N x)
-  | "LD" => do let L ← LocatedObj.new N e p; pure (L.component N x)
+  | "PL" => routePL N e x p
+  | "PE" => routePE N e x p
+  | "PA" => routePA N e x p
+  | "DL" => routeDL N e p
+  | "DE" => routeDE N e p
+  | "DA" => routeDA N e p
+  | "FCL" => routeFCL N e x p
+  | "FCE" => routeFCE N e x p
+  | "FCAL" => routeFCAL N e x p
+  | "FCAE" => routeFCAE N e x p
+  | "FATL" => routeFATL N e x p
+  | "FATE" => routeFATE N e x p
+  | "LD" => routeLD N e x p
   | _ => throw .usage
 
 def asExpr [Inhabited α] (N : Num α) (kind : String) (x : String) (e : Expr α) : R (Expr α × Bool) :=
   match kind with
-  | "P" => do
-      let (P, _) ← PartialObj.new N e x false
-      let (s, _, w) ← P.asExpression N
-      pure (s, w)
-  | "PE" => do
-      let (P, w) ← PartialObj.new N e x true
-      let (s, _, _) ← P.asExpression N
-      pure (s, w)
-  | "FE" => do
-      let (D, w) ← DifferentialObj.new N e true
-      let (P, _) ← D.component N x
-      let (s, _, w') ← P.asExpression N
-      pure (s, w || w')
-  | "FL" => do
-      let (D, _) ← DifferentialObj.new N e false
-      let (P, _) ← D.component N x
-      let (s, _, w) ← P.asExpression N
-      pure (s, w)
+  | "P" => routeExprP N e x
+  | "PE" => routeExprPE N e x
+  | "D" => routeExprD N e
+  | "DE" => routeExprDE N e
+  | "FE" => routeExprFE N e x
+  | "FL" => routeExprFL N e x
   | _ => throw .usage
 
 /-! ### request dispatch -/
@@ -355,6 +341,12 @@ def handle [Inhabited α] (C : Codec α) (op : String) : P String := do
   | "single" => do
       let e ← parseExprW C
       pure (showR id (singleVarName e))
+  | "obeq" => do
+      let a ← parseObjW C; let b ← parseObjW C
+      pure s!"ok {bstr (Obj.beq N a b)} {bstr (HKey.same N a.hashKey b.hashKey)}"
+  | "orender" => do
+      let a ← parseObjW C
+      pure s!"ok {" ".intercalate (a.render.map (showTok C))}"
   | "beq" => do
       let a ← parseExprW C; let b ← parseExprW C
       pure s!"ok {bstr (beq N a b)} {bstr (HKey.same N (hashKey a) (hashKey b))}"
